@@ -23,8 +23,9 @@ pub uninterp spec fn place_type(p: ReassignmentPath) -> TypeLayout;
 impl ReassignmentPath { #[verifier::external_body] pub fn expected_type(&self) -> (r: &TypeLayout) ensures *r == place_type(*self) { unimplemented!() } }
 pub uninterp spec fn the_class(n: &Node) -> Option<&ClassType>;
 #[verifier::external_body] pub fn the_class_of(n: &Node) -> (r: Option<&ClassType>) ensures r == the_class(n) { unimplemented!() }
-pub uninterp spec fn assign_fits(value_ty: TypeLayout, place_ty: TypeLayout, n: &Node) -> bool;
-#[verifier::external_body] pub fn assign_eq_complex(value_ty: &TypeLayout, place_ty: &TypeLayout, n: &Node) -> (r: bool) ensures r == assign_fits(*value_ty, *place_ty, n) { unimplemented!() }
+// TypeLayout::eq_complex(expected = the place's type, supplied = the value's type) in the class context of the statement (D85: the two were swapped)
+pub uninterp spec fn assign_fits(place_ty: TypeLayout, value_ty: TypeLayout, n: &Node) -> bool;
+#[verifier::external_body] pub fn assign_eq_complex(place_ty: &TypeLayout, value_ty: &TypeLayout, n: &Node) -> (r: bool) ensures r == assign_fits(*place_ty, *value_ty, n) { unimplemented!() }
 // the type admits nil (TypeLayout::is_optional().0)
 pub uninterp spec fn may_be_nil(t: TypeLayout) -> bool;
 pub trait VerifOpt { fn is_optional(&self) -> (bool, Option<&TypeLayout>); }
@@ -80,8 +81,12 @@ def build(repo):
         Rule("R6", "Self :: value ( value ) ?", "parse_value ( value ) ?", why="sub-parser abstract"),
         Rule("R6", "value . for_type ( & TypecheckFlags :: use_class ( input . user_data ( ) . get_type_of_executing_class ( ) , ) ) . to_err_vec ( ) ?", "value_for_type ( & value , the_class_of ( & input ) ) ?", why="type query abstract"),
         Rule("R1", "let maybe_class = input . user_data ( ) . get_type_of_executing_class ( ) ;", "", why="class for the comparison flags: folded into the abstract comparison"),
-        Rule("R6", "! value_ty . eq_complex ( expected_ty , & TypecheckFlags :: use_class ( maybe_class . as_ref ( ) . map ( Ref :: clone ) ) . lhs_unwrap ( true ) , )",
-             "! assign_eq_complex ( & value_ty , expected_ty , & input )", why="compatibility test abstract (flags: use_class(..).lhs_unwrap(true))"),
+        Rule("R6", "! $a . eq_complex ( $$b , & TypecheckFlags :: use_class ( maybe_class . as_ref ( ) . map ( Ref :: clone ) ) $$fl , )",
+             lambda b: "! assign_eq_complex ( " + ("& value_ty" if text(b["a"]) == "value_ty" else text(b["a"])) + " , " + ("& value_ty" if text(b["b"]) in ("& value_ty",) else text(b["b"])) + " , & input )",
+             why="compatibility test abstract, argument order kept (flags: use_class(..))"),
+        Rule("R6", "! $a . eq_complex ( $$b , & TypecheckFlags :: use_class ( maybe_class . as_ref ( ) . map ( Ref :: clone ) ) , )",
+             lambda b: "! assign_eq_complex ( " + ("& value_ty" if text(b["a"]) == "value_ty" else text(b["a"])) + " , " + text(b["b"]) + " , & input )",
+             why="compatibility test abstract, argument order kept (flags: use_class(..))"),
         Rule("R1", "let hint = $$e ;", "", why="diagnostic text"),
     ], log, "Parser::reassignment")
     check_closed(br, "Parser::reassignment")
@@ -128,7 +133,7 @@ pub fn reassignment(input: Node) -> (r: Result<Reassignment, VErr>)
         &&& path_const(path) == Some(false)
         // C03 / C02: the value's type fits the place
         &&& type_of(&r->Ok_0.value, the_class(&input)) is Some
-        &&& assign_fits(type_of(&r->Ok_0.value, the_class(&input))->Some_0, place_type(path_of(path)), &input)
+        &&& assign_fits(place_type(path_of(path)), type_of(&r->Ok_0.value, the_class(&input))->Some_0, &input)
         // C03 (re-assignment with a different type): a value that may be nil never goes into a place whose type does not admit nil (`xs[0] = x`, x: int?, xs: [int...]: D50)
         &&& !(may_be_nil(type_of(&r->Ok_0.value, the_class(&input))->Some_0) && !may_be_nil(place_type(path_of(path))))
     }}),
